@@ -431,6 +431,13 @@ pipeline has a mutating processor and is handed clone 0, the second one is hande
 example : objOf (deliveries ([(⟨[true], [false]⟩ : Pipe), ⟨[], [false, false]⟩].map Pipe.cap) false) 0 = some (.clone 0) ∧
     objOf (deliveries ([(⟨[true], [false]⟩ : Pipe), ⟨[], [false, false]⟩].map Pipe.cap) false) 1 = some .orig := by decide
 
+/-- an exporter that batches (merges/splits what it is given after `Consume` returned) always advertises
+mutation, whatever it declared itself — so the fan-out in front of it never hands it an object it
+shares (`C06_exclusive`) -/
+theorem C06_exporter_cap (declared : Option Bool) :
+    exporterCap declared true = true ∧ exporterCap declared false = declared.getD false := by
+  cases declared <;> simp [exporterCap]
+
 /-! ## non-vacuity -/
 
 example : deliveries [true, false, true, false] false =
